@@ -625,6 +625,15 @@ fn main() {
                     }
                 }
                 writeln!(out, "#oracle fails-as-intended {} {}\t{}\terr {}", class, oneline(&form_a), first, class).unwrap();
+                // failing DEFINITIONS of names that are currently macros (run-time failure of the value expression, a
+                // rejected procedure definition): nothing was defined, so the macros must still be there (seed C07f-1)
+                if case % 3 == 1 {
+                    for bad in ["(define when (car 5))", "(define (unless q) (if))", "(define cond (vector-ref (vector) 1))"] {
+                        if eval_form(&mut va, bad).is_ok() {
+                            writeln!(out, "#oracle failing-definition-fails {}\tok\terr", bad).unwrap();
+                        }
+                    }
+                }
                 // probe suite
                 let mut probes: Vec<String> = names.iter().cloned().collect();
                 probes.push("eff".into());
@@ -635,6 +644,9 @@ fn main() {
                 probes.push("(begin (kk0 41) 'never)".into());
                 probes.push("r0".into());
                 probes.push("(mm 5)".into());
+                probes.push("(when (< 1 2) 7)".into());
+                probes.push("(unless (< 2 1) 8)".into());
+                probes.push("(cond ((< 2 1) 1) (else 9))".into());
                 probes.push("(procedure? mm)".into());
                 probes.push("(define fwdvar 3)".into());
                 probes.push("(fwd 4)".into());
